@@ -35,7 +35,7 @@ def loop_case(rng, bps=None, **kw):
     if bps is None:
         bps = rng.choice(RATES) if rng.random() < 0.5 else int(math.exp(rng.uniform(math.log(65536), math.log(5e9))))
     high = bps > 3200000
-    lp = {"seed": rng.randrange(2**31), "n": rng.choice([60, 60, 120]), "mds": rng.choice(MDS), "rtt": rng.choice(RTTS),
+    lp = {"seed": rng.randrange(2**31), "n": rng.choice([50, 50, 90]), "mds": rng.choice(MDS), "rtt": rng.choice(RTTS),
           "t0": rng.choice([1, 5 * 10**8, 10**9 - 1, 3600 * 10**9, rng.randrange(1, 10**13)]),
           "lossp": rng.choice([0, 0.01, 0.1, 0.19, 0.2, 0.21, 0.3, 0.5, 0.9]),
           "evp": rng.choice([0.1, 0.2, 0.3]), "idlep": rng.choice([0, 0.03, 0.08]), "mdsp": rng.choice([0, 0.03]),
@@ -90,7 +90,7 @@ def rand_script(rng):
 
 
 def gen(rng, tier):
-    scale = 1 if tier == "quick" else 25
+    scale = 1 if tier == "quick" else 20
     cases = []
     # --- directed ack-rate scripts
     pats = [
@@ -103,7 +103,7 @@ def gen(rng, tier):
     ]
     for p in pats:
         cases.append(ack_script(rng, p))
-    for _ in range(25 * scale):
+    for _ in range(20 * scale):
         sec = 0
         p = []
         for _ in range(rng.randint(3, 25)):
@@ -115,10 +115,10 @@ def gen(rng, tier):
     for bps in RATES:
         for mds in MDS:
             cases.append(loop_case(rng, bps=bps, mds=mds))
-    for _ in range(110 * scale):
+    for _ in range(70 * scale):
         cases.append(loop_case(rng))
     # --- random scripts with out-of-range values (model agreement only)
-    for _ in range(60 * scale):
+    for _ in range(40 * scale):
         cases.append(rand_script(rng))
     return cases
 
@@ -184,7 +184,18 @@ def nontrivial(c, o):
     return bool(s.get("wakeups-checked") or s.get("rate-clamped") or s.get("rate-compensated") or s.get("event-panic"))
 
 
+FP = [("at the announced wake-up time", "C11:wakeup-insufficient"), ("HasPacingBudget is still false", "C11:wakeup-insufficient"),
+      ("announced wake-up", "C11:wakeup-time-wrong"), ("release", "C11:rate-bound-exceeded"), ("outside [0.8, 1]", "C11:ackrate-out-of-range"),
+      ("compensation disabled", "C11:ackrate-not-1-when-disabled"), ("over the last five seconds", "C11:ackrate-value-wrong"),
+      ("congestion window", "C11:window-below-one-datagram"), ("CanSend", "C11:cansend-wrong"), ("panicked", "C11:panic")]
+
+
 def fingerprint(c, o):
+    """stable class of a violation (so one VIOLATION line per kind of failure, not per case)"""
+    why = o.get("why") or ""
+    for pat, fp in FP:
+        if pat in why:
+            return fp
     return None
 
 
